@@ -13,7 +13,7 @@ import (
 )
 
 func init() {
-	register("C19", "Structural clauses of metadata-only transfer, decided on all paths of the receive loop: the id counter advances for every announced entry including the skipped listing-file name (finding F1, fixed); in metadata mode every announced entry other than the listing file's own name is framed into the buffer before the loop continues; a frame is alloc(size+4) with the 32-bit little-endian size written to the first four bytes and the stat marshalled (checked) into the rest of the same slice; ids are registered only for selected regular files; an entry the selector rejected is never forwarded to the disk writer, pending ancestors are replayed before a selected entry and the pending list is cleared; the listing file is written only after the checked group wait, after removing any previous entry of that name, with write and close checked. The pending-ancestors stack top is inspected in every iteration before anything is pushed. An announced entry named like the listing file is neither forwarded nor registered; push/pop/clear of the ancestor stack do what their names say and the unwinding loop pops. buffer.alloc(n) hands out exactly n bytes that are part of b.chunks, extending only the last chunk in place (read from and written back to slot len-1, under l+n <= cap) and appending otherwise. With a non-empty list pop shortens it and peek reports its top; the unwinding loop pops exactly while the top is not the entry's parent directory. Does not decide the remaining chunk arithmetic of the buffer, the ancestor stack for all tree shapes, or removal of stale entries.", runC19)
+	register("C19", "Structural clauses of metadata-only transfer, decided on all paths of the receive loop: the id counter advances for every announced entry including the skipped listing-file name (finding F1, fixed); in metadata mode every announced entry other than the listing file's own name is framed into the buffer before the loop continues; a frame is alloc(size+4) with the 32-bit little-endian size written to the first four bytes and the stat marshalled (checked) into the rest of the same slice; ids are registered only for selected regular files; an entry the selector rejected is never forwarded to the disk writer, pending ancestors are replayed before a selected entry and the pending list is cleared; the listing file is written only after the checked group wait, after removing any previous entry of that name, with write and close checked. The pending-ancestors stack top is inspected in every iteration before anything is pushed. An announced entry named like the listing file is neither forwarded nor registered nor framed into the listing; push/pop/clear of the ancestor stack do what their names say and the unwinding loop pops. buffer.alloc(n) hands out exactly n bytes that are part of b.chunks, extending only the last chunk in place (read from and written back to slot len-1, under l+n <= cap) and appending otherwise. With a non-empty list pop shortens it and peek reports its top; the unwinding loop pops exactly while the top is not the entry's parent directory. Does not decide the remaining chunk arithmetic of the buffer, the ancestor stack for all tree shapes, or removal of stale entries.", runC19)
 }
 
 func runC19(c *Ctx) {
@@ -36,7 +36,7 @@ func runC19(c *Ctx) {
 // the sender could plant the file the receiver is about to write (or have it
 // written and then overwritten).
 func r19_9(c *Ctx, rule string) {
-	c.R.Rule(rule, "in metadata mode an announced entry whose path is the listing file's name reaches no forward to the disk writer and no registration in receiver.files in its iteration")
+	c.R.Rule(rule, "in metadata mode an announced entry whose path is the listing file's name reaches no forward to the disk writer, no registration in receiver.files and no record in the listing buffer in its iteration")
 	m := getMetaLoop(c, rule)
 	if m == nil {
 		return
@@ -93,6 +93,10 @@ func r19_9(c *Ctx, rule string) {
 		if mu, ok := in.(*ssa.MapUpdate); ok && isFieldLoad(mu.Map, "fsutil.receiver.files") {
 			return true
 		}
+		// ... nor framed into the listing: the listing has no record of itself
+		if m.alloc != nil && in == ssa.Instruction(m.alloc) {
+			return true
+		}
 		return false
 	}
 	ex := c.explorer(m.loop)
@@ -106,7 +110,7 @@ func r19_9(c *Ctx, rule string) {
 	case ex.Exhausted:
 		c.R.Undecided(rule, base+"/listing-name-skipped", c.pos(m.recv), "state limit")
 	case len(h) > 0:
-		c.R.Fail(rule, base+"/listing-name-skipped", c.pos(h[0].Instr), "an announced entry named like the listing file is forwarded or registered; path "+eng.BlockTrace(m.loop, h[0].Trace))
+		c.R.Fail(rule, base+"/listing-name-skipped", c.pos(h[0].Instr), "an announced entry named like the listing file is forwarded, registered or framed into the listing; path "+eng.BlockTrace(m.loop, h[0].Trace))
 	default:
 		c.R.OK(rule, base+"/listing-name-skipped", c.pos(m.recv), "an entry named like the listing file reaches no forward and no registration")
 	}
